@@ -1204,7 +1204,7 @@ theorem enterScript_core (p : Prog) (gas : Nat)
       exact StateOrder.trans h0 (StateOrder.trans h (coreR_same rfl rfl))
     · next s' _ heq =>
       rw [heq] at h
-      exact StateOrder.trans h0 h
+      exact StateOrder.trans h0 (StateOrder.trans h (coreR_same rfl rfl))
 
 /-- **every run of the dispatch loop / of `run_function` keeps `UpCore`** -/
 theorem exec_core (p : Prog) : ∀ (gas : Nat) (t : Task) (s : VmState), CoreR s (exec p gas t s).1 := by
